@@ -13,6 +13,7 @@ import socket
 import tempfile
 import threading
 import time
+from pathlib import Path
 
 from checks.c17 import ProxyWorld
 from vf import live, peers
@@ -44,6 +45,7 @@ def setup(ctx):
     ]
     ctx.require("monitor", "concurrent_exchanges", 8)
     ctx.require("monitor", "complete_non2x_then_trouble", 9)
+    ctx.require("monitor", "configured_stalls", 20)
     ctx.require("monitor", "exchanges", 74)
     ctx.require("monitor", "verbatim_compared", 43)
     ctx.require("monitor", "faults_injected", 25)
@@ -182,6 +184,88 @@ def judge_fault(ctx, kind, r, extra=None):
         return
     ctx.count("monitor", "got_43")
     ctx.count("outcome", f"43:{kind}")
+
+
+def run_configured_stall(ctx, base):
+    """Proxy locations as a configuration file declares them - `timeout` given, or left out (documented default:
+    30 s) - wired by start_server() (captured production wiring, no socket) and run in virtual time against an
+    upstream that accepts the connection and then never says anything (or never finishes connecting).  The
+    downstream client must be told 43 once the location's timeout has passed; a loop that goes quiet with the
+    client still waiting is a client that gets no response at all."""
+    import contextlib
+    import io
+
+    import tomli_w
+    from nauyaca.server.config import ServerConfig
+
+    from vf import quiet_logs
+    from vf.sim import ServerSim, capture_factory
+    from vf.transports import FakeTransport
+    from vf.vloop import close_loop, new_loop
+
+    docroot = os.path.join(base, "cfg-doc")
+    os.makedirs(docroot, exist_ok=True)
+    shapes = [
+        ("timeout-omitted", [{"prefix": "/", "handler": "proxy", "upstream": "gemini://upstream.test:1965"}], "/x", 30.0),
+        ("timeout-omitted:strip-prefix", [{"prefix": "/api/", "handler": "proxy", "upstream": "gemini://upstream.test", "strip_prefix": True}, {"prefix": "/", "handler": "static", "document_root": docroot}], "/api/x", 30.0),
+        ("timeout-given", [{"prefix": "/", "handler": "proxy", "upstream": "gemini://upstream.test:1965", "timeout": 7.5}], "/x", 7.5),
+        ("timeout-omitted:after-one-that-sets-it", [{"prefix": "/a/", "handler": "proxy", "upstream": "gemini://upstream.test:1965", "timeout": 4.0},
+                                                    {"prefix": "/b/", "handler": "proxy", "upstream": "gemini://other.test:1965"}], "/b/x", 30.0),
+        ("timeout-integer", [{"prefix": "/", "handler": "proxy", "upstream": "gemini://upstream.test:1965", "timeout": 12}], "/x", 12.0),
+    ]
+    for name, locs, path, tmo in shapes:
+        cfgfile = os.path.join(base, "stall.toml")
+        with open(cfgfile, "wb") as f:
+            tomli_w.dump({"server": {"host": "127.0.0.1", "port": 1965, "document_root": docroot}, "rate_limit": {"enabled": False}, "locations": locs}, f)
+        for stage in ("never-connects", "connected-then-silent", "header-half-then-silent", "body-started-then-silent"):
+            with contextlib.redirect_stdout(io.StringIO()):
+                cap = capture_factory(dict(log_level="CRITICAL", enable_rate_limiting=False), ServerConfig.from_toml(Path(cfgfile)))
+            quiet_logs()
+            loop = new_loop()
+            upstream = {"connections": 0, "written": b""}
+
+            async def fake_create_connection(protocol_factory, host=None, port=None, **kw):
+                upstream["connections"] += 1
+                if stage == "never-connects":
+                    await loop.create_future()
+                proto = protocol_factory()
+                tr = FakeTransport(loop, proto, peername=("203.0.113.9", port or 1965))
+                upstream["transport"] = tr
+                proto.connection_made(tr)
+                if stage == "header-half-then-silent":
+                    loop.call_later(0.5, proto.data_received, b"20 text/ge")
+                elif stage == "body-started-then-silent":
+                    loop.call_later(0.5, proto.data_received, b"20 text/gemini\r\nfirst line\n")
+                return tr, proto
+
+            loop.create_connection = fake_create_connection  # type: ignore[method-assign]
+            try:
+                sim = ServerSim(cap["factory"], peername=("192.0.2.7", 40001), loop=loop, log=[])
+                sim.start()
+                sim.feed(f"gemini://example.org{path}\r\n".encode())
+                end = loop.run_until(200.0)
+                stream = bytes(sim.transport.written)
+                t_close = sim.transport.close_time
+                ctx.count("monitor", "exchanges")
+                ctx.count("monitor", "configured_stalls")
+                ctx.count("monitor", "faults_injected")
+                wit = {"level": "L1-wired", "locations": locs, "request_path": path, "upstream": stage, "expected_timeout": tmo, "downstream": stream[:80], "downstream_closed_at": t_close,
+                       "loop_end": end, "virtual_time": loop.time(), "upstream_connections": upstream["connections"]}
+                if not upstream["connections"]:
+                    ctx.inconclusive_because(f"configured-stall: the proxy location never opened an upstream connection ({name})")
+                elif not stream.startswith(b"43"):
+                    if not stream:
+                        ctx.violation(f"no-43:fault=stall:{name.split(':')[0]}:wired", f"upstream {stage}: the downstream client had no response at all when the loop went quiet (t={loop.time():.0f}s); the location's timeout is {tmo}s", wit)
+                    else:
+                        ctx.violation(f"no-43:fault=stall:{name.split(':')[0]}:wired", f"upstream {stage}: downstream got {stream[:30]!r}, not 43", wit)
+                elif t_close is None or t_close > tmo * 2 + 5 or t_close < tmo - 1e-6:
+                    ctx.violation(f"stall-not-cut-at-timeout:{name.split(':')[0]}:wired", f"43 delivered at t={t_close}, the location's timeout is {tmo}s", wit)
+                else:
+                    ctx.count("monitor", "got_43")
+                    ctx.count("outcome", f"configured-stall:{name}:43@{t_close}")
+                ctx.case(("configured-stall", name, stage, stream[:2], t_close), True, sample=wit)
+            finally:
+                close_loop(loop)
 
 
 def run(ctx):
@@ -543,6 +627,8 @@ def run(ctx):
                     ctx.count("monitor", "exchanges")
                     judge_fault(ctx, "tls-failure-plaintext-upstream", r)
                     ctx.case(("fault", "tls-failure", r["data"][:2]), True)
+        if ctx.mine(6):
+            run_configured_stall(ctx, base)
         if ctx.mine(5):
             srv4, _ = world.server(cfg, timeout=20)
             big = b"20 application/octet-stream\r\n" + b"\xcd" * (CAP + 1)
